@@ -228,6 +228,9 @@ def replay(schedule, k):
                 if not unput and not m_done:
                     m_done = True
                     executed.append(["M", sc.step("M")])
+            elif a[0] == "S":
+                time.sleep(float(a[1]))          # nobody is scheduled: the collector thread is starved for a while
+                executed.append(["S", a[1]])
             else:
                 executed.append(["C", sc.step("C", timeout=2.0)])
         sc.free_run()
